@@ -23,6 +23,7 @@ EXPLANATION = (
     "and one out.insert(peer.peer_id(), that call's result); the four public wrappers pass their path through unchanged. "
     "Not decided: the contents of the maps over arbitrary histories and linearizability checking (value-level)."
     ' (alias-pairing, closed over forward inserts) for every insert into the forward alias map the returned previous owner is looked at and a retain on an alias_index list is reachable.'
+    ' In every lock region of the registry (the blocks where the guard is live and the closures nested in the locking function) no caller-supplied closure and no PeerHandle / PeerSink method other than peer_id is called, so no embedder panic or re-entrant call can interrupt a multi-map update.'
 )
 ASSUMPTIONS = ["std::sync::Mutex gives mutual exclusion; HashMap/Vec have their std semantics"]
 
@@ -254,7 +255,16 @@ def run(facts, R):
                 tt = b.blocks[x]["term"]
                 if tt["k"] == "call" and _foreign(tt):
                     bad.append((_foreign(tt), tt.get("span")))
+            # closures count when they are built while the guard is held (they are handed to a call of the lock region); a closure
+            # built before the lock is taken runs before it
+            built_held = set()
+            for x in held:
+                for st_ in b.blocks[x]["stmts"]:
+                    if st_["k"] == "assign" and st_["rv"].get("agg") in ("closure", "coroutine", "coroutine_closure"):
+                        built_held.add(st_["rv"]["def"])
             for cb in facts.children(b.path):
+                if not any(cb.path == d_ or cb.path.startswith(d_ + "::{") for d_ in built_held):
+                    continue
                 for x, tt in cb.calls():
                     if _foreign(tt):
                         bad.append((_foreign(tt) + " inside " + cb.path.rsplit("::", 1)[-1], tt.get("span")))
